@@ -182,10 +182,11 @@ theorem cbStep_deliver (cfg : Cfg) (c : Cli) (e : Ev) :
   | lost =>
     simp only [deliver, onLost]
     split
-    · cases cbStep_onEioDisconnect cfg c rTransport with
-      | keep h1 h2 h3 => exact .keep h1 h2 h3
-      | ack n i e data hf h1 h2 h3 => exact .ack n i e data hf h1 h2 h3
-      | reset h1 h2 h3 => exact .reset h1 h2 h3
+    · have h := onEioDisconnect_cbs cfg c rTransport
+      rcases startEffort_eq { (onEioDisconnect cfg c rTransport).1 with eio := .disconnected } with he | he <;>
+        rw [he]
+      · exact .reset h.1 h.2.1 (by simp [h.2.2])
+      · exact .reset h.1 h.2.1 (by simp [h.2.2, cbOuts_cons, cbOf])
     · exact .refl c
   | close => exact cbStep_eioDisconnect _ _ _
 
